@@ -45,10 +45,13 @@ M = {
                     "    argmax = max_value_mask.shape[-1] - 1 - jnp.argmax(max_value_mask[..., ::-1], axis=-1)", ["C18"]),
     "indexer-fill-zero": ("state_space.py", "def create_indexers_and_segments(mask, n_sparse_states, fill_value=-1):",
                           "def create_indexers_and_segments(mask, n_sparse_states, fill_value=0):", ["C17"]),
-    "grid-start-ge": ("grids.py", "    if valid_start_type and valid_stop_type and start >= stop:",
-                      "    if valid_start_type and valid_stop_type and start > stop:", ["C16"]),
     "logsumexp-no-shift": ("discrete_problem.py", "    exp = jnp.exp(a - segmax[segment_info[\"segment_ids\"]])",
                            "    exp = jnp.exp(a - 0 * segmax[segment_info[\"segment_ids\"]])", ["C20"]),
+    "solve-memo": ("entry_point.py", "    solve_model = jax.jit(_solve_model) if jit else _solve_model\n",
+                   "    _f = jax.jit(_solve_model) if jit else _solve_model\n    _memo = {}\n\n    def solve_model(params):\n        if 'v' not in _memo:\n            _memo['v'] = _f(params)\n        return _memo['v']\n", ["C09"]),
+    "params-mutated": ("solve_brute.py", "    n_periods = len(state_choice_spaces)\n", "    n_periods = len(state_choice_spaces)\n    params['beta'] = params['beta'] * 1\n    params.setdefault('_seen', True)\n", ["C09"]),
+    "grid-start-ge": ("grids.py", "        elif start >= stop:", "        elif start > stop:", ["C16"]),
+    "lazy-stochastic-check": ("input_processing/create_params_template.py", "    if invalid_dependencies:\n        raise ValueError(", "    if False:\n        raise ValueError(", ["C12"]),
     "kwargs-by-position": ("functools.py", "    sorted_kwargs = dict(sorted(kwargs.items(), key=lambda kw: parameters.index(kw[0])))",
                            "    sorted_kwargs = dict(kwargs.items())", ["C19"]),
 }
